@@ -130,10 +130,12 @@ type jobOutcome struct {
 	crashed   *proto.RunSpec // the run during which the process died
 	crashText string
 	mark      string // phase of the crashed run recorded last in the journal ("" = none)
+	hang      bool   // the worker's own watchdog ended the run (HANG in the journal)
 	leftover  []proto.RunSpec
 	watchdog  bool
 }
 
+var runLimitS int   // real seconds per run before the worker declares a hang (set per plan)
 var keepStderr bool // race mode: the detector's reports are on the worker's stderr
 var jobSeq int
 var jobSeqMu sync.Mutex
@@ -144,7 +146,7 @@ func runJob(bin string, specs []proto.RunSpec, timeout time.Duration, extraEnv .
 	id := jobSeq
 	jobSeqMu.Unlock()
 	base := filepath.Join(workDir, fmt.Sprintf("job%06d", id))
-	job := proto.Job{Specs: specs, Out: base + ".out", Journal: base + ".journal"}
+	job := proto.Job{Specs: specs, Out: base + ".out", Journal: base + ".journal", RunLimitS: runLimitS}
 	jb, _ := json.Marshal(job)
 	os.WriteFile(base+".json", jb, 0o644)
 	defer func() {
@@ -211,6 +213,8 @@ func runJob(bin string, specs []proto.RunSpec, timeout time.Duration, extraEnv .
 			}
 			n, _ := strconv.Atoi(f[1])
 			switch f[0] {
+			case "HANG":
+				oc.hang = true
 			case "BEGIN":
 				begun = n
 			case "END":
@@ -398,6 +402,57 @@ func attachRaces(r *proto.RunResult, stderr string) {
 		Detail: fmt.Sprintf("%d report(s) of the Go race detector in this run: %s\n%s", len(reps), strings.Join(all, "; "), first.text)}
 }
 
+// hangProps are the properties whose statement a permanent standstill of the
+// library violates (a deadlock is the extreme case of "never wakes", "never
+// delivers", "is stalled by", "never terminates").
+var hangProps = map[string]bool{"C02": true, "C03": true, "C11": true, "C13": true, "C15": true, "C19": true}
+
+// hangSignature looks through a goroutine dump for goroutines blocked on a
+// sync.Mutex / RWMutex inside the library and names the first library frame.
+func hangSignature(text string) (sig, detail string) {
+	var frames, hooks []string
+	for _, g := range strings.Split(text, "\n\n") {
+		lines := strings.Split(g, "\n")
+		if len(lines) < 2 || !strings.HasPrefix(lines[0], "goroutine ") {
+			continue
+		}
+		if !strings.Contains(lines[0], "Mutex.Lock") && !strings.Contains(lines[0], "RWMutex") && !strings.Contains(lines[0], "semacquire") {
+			continue
+		}
+		for _, l := range lines[1:] {
+			if strings.HasPrefix(l, "github.com/xtaci/kcp-go/v5.") {
+				f := strings.TrimPrefix(l, "github.com/xtaci/kcp-go/v5.")
+				if i := strings.LastIndex(f, "("); i > 0 {
+					f = f[:i]
+				}
+				if strings.Contains(f, ".Verif") {
+					hooks = append(hooks, f) // a harness hook waiting for the same mutex
+					continue
+				}
+				frames = append(frames, f)
+				break
+			}
+		}
+	}
+	if len(frames) == 0 && len(hooks) > 0 {
+		// Only the harness's own state-reading hook waits: the mutex was left locked
+		// by code that is no longer running (the harness takes it nowhere else and
+		// never blocks while holding it).
+		return "deadlock:library-mutex-never-released", fmt.Sprintf("the harness's state hook %s waits for ever for a mutex of the library that no running goroutine holds", hooks[0])
+	}
+	if len(frames) == 0 {
+		return "", ""
+	}
+	sort.Strings(frames)
+	uniq := frames[:1]
+	for _, f := range frames[1:] {
+		if f != uniq[len(uniq)-1] {
+			uniq = append(uniq, f)
+		}
+	}
+	return "deadlock:blocked-on-a-mutex@" + uniq[0], fmt.Sprintf("%d goroutine(s) of the library are blocked on a mutex: %s", len(frames), strings.Join(uniq, ", "))
+}
+
 // crashProps are the properties whose statement a process crash violates.
 var crashProps = map[string]bool{"C02": true, "C05": true, "C10": true}
 
@@ -412,6 +467,7 @@ type pool struct {
 	skipped       int
 	watchdogs     []string
 	killedOnce    map[string]bool // runs whose worker was killed from outside once already
+	hangs         int             // runs ended by the worker's own watchdog with a library deadlock
 	perRunTimeout time.Duration
 }
 
@@ -437,6 +493,12 @@ func (p *pool) run() {
 				}
 				specs := p.queue[0]
 				p.queue = p.queue[1:]
+				if p.hangs >= 4 {
+					// every hang costs the full run limit: enough evidence, skip the rest
+					p.skipped += len(specs)
+					p.mu.Unlock()
+					continue
+				}
 				p.mu.Unlock()
 				to := p.perRunTimeout*time.Duration(len(specs)) + 30*time.Second
 				oc := runJob(p.bin, specs, to)
@@ -459,6 +521,18 @@ func (p *pool) run() {
 				if oc.crashed != nil {
 					if oc.watchdog {
 						p.watchdogs = append(p.watchdogs, fmt.Sprintf("%s/%s seed=%d", oc.crashed.Scenario, oc.crashed.Stratum, oc.crashed.Seed))
+					} else if oc.hang {
+						// the worker's own watchdog: a run that never came back. With a goroutine
+						// of the library blocked on a mutex this is a deadlock in the library;
+						// otherwise it is harness trouble.
+						sp := oc.crashed
+						if hsig, hdet := hangSignature(oc.crashText); hsig != "" {
+							p.hangs++
+							p.crashes = append(p.crashes, proto.RunResult{Prop: sp.Prop, Scenario: sp.Scenario, Stratum: sp.Stratum, Seed: sp.Seed,
+								Viol: &proto.Violation{Prop: sp.Prop, Oracle: "hang", Sig: sp.Prop + "/hang/" + hsig, Detail: "the run never came back (virtual time stopped); " + hdet}})
+						} else {
+							p.watchdogs = append(p.watchdogs, fmt.Sprintf("%s/%s seed=%d (run hung, no goroutine of the library blocked on a mutex)", sp.Scenario, sp.Stratum, sp.Seed))
+						}
 					} else if sig, _ := crashSignature(oc.crashText); sig == "no-panic-text" {
 						// The worker died inside this run without any Go panic / fatal-error
 						// text: it was killed from outside (out-of-memory killer, a signal).
@@ -500,6 +574,14 @@ func runSingle(bin string, spec proto.RunSpec, timeout time.Duration) (res *prot
 	if oc.crashed != nil {
 		if oc.watchdog {
 			return nil, "", true
+		}
+		if oc.hang {
+			hsig, hdet := hangSignature(oc.crashText)
+			if hsig == "" {
+				return nil, "", true
+			}
+			return &proto.RunResult{Prop: spec.Prop, Scenario: spec.Scenario, Stratum: spec.Stratum, Seed: spec.Seed,
+				Viol: &proto.Violation{Prop: spec.Prop, Oracle: "hang", Sig: spec.Prop + "/hang/" + hsig, Detail: "the run never came back (virtual time stopped); " + hdet}}, hsig, false
 		}
 		v, sig := crashViolation(&spec, oc.mark, oc.crashText)
 		return &proto.RunResult{Prop: spec.Prop, Scenario: spec.Scenario, Stratum: spec.Stratum, Seed: spec.Seed, Viol: v}, sig, false
@@ -966,6 +1048,10 @@ func doCheck(prop, tier string) int {
 	if p.perRunTimeout == 0 {
 		p.perRunTimeout = 60 * time.Second
 	}
+	runLimitS = int(p.perRunTimeout / time.Second)
+	if plan.Race {
+		runLimitS = 0 // free-running mode has the supervisor's watchdog only
+	}
 	budget := plan.QuickBudget
 	if tier == "thorough" {
 		budget = plan.ThoroughBudget
@@ -999,6 +1085,9 @@ func doCheck(prop, tier string) int {
 	}
 	for i := range p.crashes {
 		r := &p.crashes[i]
+		if r.Viol.Oracle == "hang" && !hangProps[prop] {
+			harness = append(harness, proto.RunResult{Prop: prop, Scenario: r.Scenario, Stratum: r.Stratum, Seed: r.Seed, Harness: "the library deadlocked during the run (undecidable for this property): " + r.Viol.Sig})
+		}
 		if !crashProps[prop] && r.Viol.Oracle == "survive" {
 			// a crash is not a violation of this property's statement; it is
 			// reported by C05 (and C10/C02). Here the run cannot be decided.
@@ -1012,6 +1101,15 @@ func doCheck(prop, tier string) int {
 				continue
 			}
 			kept = append(kept, v)
+		}
+		viols = kept
+	}
+	if !hangProps[prop] {
+		kept := viols[:0]
+		for _, v := range viols {
+			if v.Viol.Oracle != "hang" {
+				kept = append(kept, v)
+			}
 		}
 		viols = kept
 	}
@@ -1086,7 +1184,7 @@ func doCheck(prop, tier string) int {
 		rp := bySig[key]
 		v := rp.res
 		rp.known = matchFinding(findings, &v)
-		isCrash := strings.Contains(v.Viol.Sig, "/survive/crash:")
+		isCrash := strings.Contains(v.Viol.Sig, "/survive/crash:") || strings.Contains(v.Viol.Sig, "/hang/")
 		// obtain the tape: crashes have none recorded (the process died), so the
 		// replay is by seed
 		tapeRec := v.Tape
